@@ -32,6 +32,7 @@ class ExecBase:
         self.pid = pid
         self.obls = []
         self.heap0 = {}
+        self.axioms = []
         self.counter = 0
         self.spec = 0               # >0 while evaluating a specification expression
         self.spec_old = None        # state for old(...)
@@ -49,11 +50,12 @@ class ExecBase:
         self.no_oblige = 0
         self._ax_sink = None
         self.unfold_on = True
+        self.fact_target = None     # state that receives spec-function facts (default: the evaluation state)
         self.known_used = set()
 
     # ------------------------------------------------------------------ names
     def oname(self, kind, label, line):
-        return "%s/%s/%s/%s@L%s" % (self.pid, self.c.qual, kind, label, line)
+        return "%s/%s/%s/%s@L%s" % (self.pid, getattr(self.c, "key", self.c.qual), kind, label, line)
 
     def fresh(self, ty, name):
         self.counter += 1
@@ -66,7 +68,7 @@ class ExecBase:
             return
         line = self.cur_line if line is None else line
         from . import known
-        kf = known.match(self.pid, self.c.qual, kind, label)
+        kf = known.match(self.pid, getattr(self.c, "key", self.c.qual), kind, label)
         if kf is not None and kf.get("region"):
             # recorded finding: the clause is still proved *outside* the recorded region
             region = self.spec_bool(kf["region"], self.entry, old=self.entry)
@@ -120,6 +122,14 @@ class ExecBase:
         if k not in self.heap0:
             self.heap0[k] = (z3.Const("H_%s_%s" % (cls, fld.replace(":", "_").replace("<", "_").replace(">", "_").replace(",", "_")),
                                       z3.ArraySort(z3.IntSort(), ty.sort())), ty)
+            inner = ty.inner if isinstance(ty, Opt) else ty
+            if isinstance(inner, Ref):
+                # heap well-formedness at entry: every reference stored in a field denotes an object
+                # that already exists (or None)
+                r = z3.FreshConst(z3.IntSort(), "r")
+                lo = 0 if isinstance(ty, Opt) else 1
+                m = self.heap0[k][0]
+                self.axioms.append(z3.ForAll([r], z3.And(z3.Select(m, r) >= lo, z3.Select(m, r) < z3.Int("nalloc0"))))
         return self.heap0[k][0]
 
     def hmap(self, st, cls, fld, ty=None):
@@ -147,12 +157,44 @@ class ExecBase:
     def alloc(self, st, cls):
         r = st.nalloc
         st.nalloc = st.nalloc + 1
-        st.flags.setdefault("fresh", [])
-        st.flags["fresh"] = st.flags["fresh"] + [r]
+        st.flags["fresh"] = st.flags.get("fresh", []) + [r]       # allocated by this activation (frame)
+        st.flags["recent"] = st.flags.get("recent", []) + [r]     # ... since the last havoc boundary
         return r
 
     def is_fresh(self, st, ref_t):
         return z3.Or([ref_t == r for r in st.flags.get("fresh", [])]) if st.flags.get("fresh") else z3.BoolVal(False)
+
+    def alloc_boundary(self, st):
+        """Something else may have allocated (a callee, another task): the allocation frontier
+        moves to an unknown later point and everything now stored in the heap lies below it."""
+        na = z3.FreshConst(z3.IntSort(), "nalloc")
+        st.assume(na >= st.nalloc)
+        st.nalloc = na
+        st.flags["base"] = na
+        st.flags["recent"] = []
+        # values that appeared in the heap through a havoc are well-formed w.r.t. the new frontier
+        for ty, term, whole in st.flags.get("pending_valid", []):
+            if whole:
+                r = z3.FreshConst(z3.IntSort(), "r")
+                lo = 0 if isinstance(ty, Opt) else 1
+                st.assume(z3.ForAll([r], z3.And(z3.Select(term, r) >= lo, z3.Select(term, r) < na)))
+            else:
+                st.assume(self.ref_valid(st, term, optional=isinstance(ty, Opt)))
+        st.flags["pending_valid"] = []
+
+    def pending_valid(self, st, ty, term, whole_map):
+        inner = ty.inner if isinstance(ty, Opt) else ty
+        if isinstance(inner, Ref):
+            st.flags["pending_valid"] = st.flags.get("pending_valid", []) + [(ty, term, whole_map)]
+
+    def ref_valid(self, st, t, optional=False):
+        """A reference found in the heap is an object that existed at the last boundary or one
+        this activation allocated since."""
+        base = st.flags.get("base", self.entry.nalloc if self.entry is not None else st.nalloc)
+        alts = [z3.And(t > 0, t < base)] + [t == r for r in st.flags.get("recent", [])]
+        if optional:
+            alts.append(t == 0)
+        return z3.Or(alts)
 
     def assume_valid(self, st, v):
         """Heap well-formedness: references read from the heap denote allocated objects."""
@@ -160,9 +202,12 @@ class ExecBase:
             return
         ty = v.ty
         if isinstance(ty, Ref):
-            st.assume(z3.And(v.t > 0, v.t < st.nalloc))
+            st.assume(self.ref_valid(st, v.t))
         elif isinstance(ty, Opt) and isinstance(ty.inner, Ref):
-            st.assume(z3.And(v.t >= 0, v.t < st.nalloc))
+            st.assume(self.ref_valid(st, v.t, optional=True))
+        elif ty == EXC:
+            self.exc_id("Exception")
+            st.assume(z3.And(v.t > 0, v.t <= max(self.exc["ids"].values())))
         elif isinstance(ty, List) or ty == BYTES:
             st.assume(self.len_wf(T.list_len(v)))
         elif isinstance(ty, Opt) and (isinstance(ty.inner, List) or ty.inner == BYTES):
